@@ -173,6 +173,12 @@ def _worker(args: tuple[str, bool, int, int]) -> list[dict[str, Any]]:
                         sm_problems.append(f"entry of {nm} (offset {off}) points at {rest[:25]!r} (line {ln}, column {col})")
                 elif rest[:1] in ("", " ", "}"):
                     sm_problems.append(f"entry of {nm} (offset {off}) points at blank space or a closing brace (line {ln}, column {col}: {lines[ln]!r})")
+                elif not fallback and nm == "Jump" and not rest.startswith(("jump @", "continue;", "break_loop;", "break;")):
+                    sm_problems.append(f"entry of the Jump at offset {off} points at `{rest[:25]}` (line {ln}), not at a jump statement")
+                elif not fallback and nm in ("Case", "CaseValue", "CaseVariable", "CaseScenario", "CaseMenu", "CaseMenu2") and not rest.startswith("case"):
+                    sm_problems.append(f"entry of the {nm} at offset {off} points at `{rest[:25]}` (line {ln}), not at its case header")
+                elif not fallback and nm.startswith("Switch") and not rest.startswith(("switch", nm + "(")):
+                    sm_problems.append(f"entry of the {nm} at offset {off} points at `{rest[:25]}` (line {ln}), not at the switch header")
             if not fallback:
                 for nm, cnt in rec["op_prints"].items():
                     if cnt >= 1 and nm not in entry_of:
